@@ -336,19 +336,9 @@ Definition known_D21b (c : ncase) : bool :=
 Definition known_D21 (c : ncase) : bool := known_D21a c || known_D21b c || hist_class d21c_at c.
 Definition known_D25 (c : ncase) : bool := hist_class d25_at c.
 Definition known_202 (c : ncase) : bool := hist_class c202_at c.
-(* D06 / D26 (index-space defects of C06 / C09): a deleted item survives in the function vector, so the vector
-   position under which a body name is emitted is not the function's index *)
-Definition known_D06n (c : ncase) : bool :=
-  match final_nst c with
-  | Some s => let f := m_f (ns_m s) in existsb (fun i => is_import i && it_del i) (skipn (N.to_nat (s_num f - s_added f)) (s_items f))
-  | None => false
-  end.
-Definition known_D06g (c : ncase) : bool :=
-  match final_nst c with
-  | Some s => let g := m_g (ns_m s) in existsb (fun i => is_import i && it_del i) (skipn (N.to_nat (s_num g - s_added g)) (s_items g))
-  | None => false
-  end.
-Definition known_D26n (c : ncase) : bool := after is_i2l is_del_f (edits (nh_ops c)).
+(* D06 / D26 (index-space defects of C06 / C09: a deleted item survived in the function / global vector, so the
+   vector position under which a body name is emitted was not the entity's index) are repaired: recalculate_ids
+   drops every deleted item; the classes 6 and 26 are gone. *)
 
 Definition ncls (c : ncase) (l : list (N * (ncase -> bool))) : list N :=
   flat_map (fun kp : N * (ncase -> bool) => if snd kp c then [fst kp] else []) l.
@@ -361,7 +351,7 @@ Definition explain (failed : bool) (c : ncase) (cands : list (N * (ncase -> bool
 Fixpoint dedupN (l : list N) : list N :=
   match l with [] => [] | x :: l' => if existsb (N.eqb x) l' then dedupN l' else x :: dedupN l' end.
 Definition all_classes : list (N * (ncase -> bool)) :=
-  [(21, known_D21); (25, known_D25); (202, known_202); (6, fun c => known_D06n c || known_D06g c); (26, known_D26n)].
+  [(21, known_D21); (25, known_D25); (202, known_202)].
 Definition failing_classes (c : ncase) : list N :=
   let s := fst (nspec_final c) in
   explain (naming_panic c) c []
@@ -369,11 +359,11 @@ Definition failing_classes (c : ncase) : list N :=
   ++ match no_enc c with
      | None => []
      | Some (e, n) =>
-         explain (negb (fn_sound s e (n_funcs n))) c [(25, known_D25); (6, known_D06n); (26, known_D26n)]
-         ++ explain (negb (fn_kept s e (n_funcs n))) c [(21, hist_class d21c_at); (25, known_D25); (6, known_D06n); (26, known_D26n)]
-         ++ explain (negb (ln_sound s e (n_locals n) && ln_kept s e (n_locals n))) c [(21, known_D21b); (6, known_D06n); (26, known_D26n)]
-         ++ explain (negb (gn_sound s e (n_globals n))) c [(21, known_D21a); (202, known_202); (6, known_D06g)]
-         ++ explain (negb (gn_kept s e (n_globals n))) c [(21, known_D21a); (202, known_202); (6, known_D06g)]
+         explain (negb (fn_sound s e (n_funcs n))) c [(25, known_D25)]
+         ++ explain (negb (fn_kept s e (n_funcs n))) c [(21, hist_class d21c_at); (25, known_D25)]
+         ++ explain (negb (ln_sound s e (n_locals n) && ln_kept s e (n_locals n))) c [(21, known_D21b)]
+         ++ explain (negb (gn_sound s e (n_globals n))) c [(21, known_D21a); (202, known_202)]
+         ++ explain (negb (gn_kept s e (n_globals n))) c [(21, known_D21a); (202, known_202)]
      end.
 
 Definition verdict29 (c : ncase) : Util.verdict :=
